@@ -193,7 +193,8 @@ def gen(seed, profile='general', big=False):
         if rng.random() < P.get('big_units', 0.15):
             unit = rng.choice([10, 12, 30, 49, 75, 90, 150, 300, 600, 900])
     if unit == 'misspelt':
-        unit = rng.choice(['Minutes', 'HOURS', ' minutes', 'hour', 'min', 'Seconds'])
+        # (a custom unit must be a JSON integer: a float such as 120.0 is not one, in any section)
+        unit = rng.choice(['Minutes', 'HOURS', ' minutes', 'hour', 'min', 'Seconds', 120.0, 60.0])
     k = unit_factor(unit)
 
     nm = pick('nm', {1: 8, 2: 22, 3: 25, 4: 20, 5: 15, 6: 10})
@@ -245,8 +246,8 @@ def gen(seed, profile='general', big=False):
     monitor = P.get('monitor', 'light')
     if monitor == 'light' and rng.random() < P.get('real_share', 0.07):
         monitor = 'real'        # the real per-timestep monitor (its to_df() calls are part of the system) in a share of every profile
-    if monitor == 'light' and rng.random() < P.get('late', 0.01):
-        t = rng.choice([990, 996, 999, 1000])      # the run crosses t = 1000
+    if monitor == 'light' and rng.random() < P.get('late', 0.025):
+        t = rng.choice([990, 993, 996, 998, 999, 1000])      # the run crosses t = 1000
     names = ['o%d' % i for i in range(nobs)]
     if rng.random() < 0.3:
         pool = ['emu', 'dingo', 'wallaby', 'vast', 'flash', 'possum', 'gaskap', 'craft']
@@ -256,6 +257,8 @@ def gen(seed, profile='general', big=False):
         dur = pick('dur', {1: 15, 2: 19, 3: 19, 4: 14, 5: 10, 6: 7, 7: 5, 8: 5, 9: 3, 10: 3})
         if rng.random() < P.get('long_dur', 0.04):
             dur = rng.choice([14, 15, 28, 31])
+        if monitor == 'light' and i == 0 and nobs >= 2 and rng.random() < P.get('very_long', 0.006):
+            dur = rng.choice([520, 610])        # one observation that keeps its ingest machines for hundreds of steps
         if k >= 10 and rng.random() < P.get('float_dur', 0.35):
             # durations whose conversion to timesteps is sensitive to how the division is written
             # (x * (1 / k) != x / k in floating point for these)
@@ -312,6 +315,8 @@ def gen(seed, profile='general', big=False):
     if pattern != 'crowd' and rng.random() < P.get('small_ingest', 0.35):
         for o in obs:
             o['ingest_demand'] = 1
+    if rng.random() < P.get('zero_ingest', 0.03):
+        rng.choice(obs)['ingest_demand'] = 0        # a pipeline that needs no ingest machine (legal)
     if rng.random() < P.get('frac_rate', 0.08):
         # a data rate that is not a whole number (the configuration parser rounds rate x unit to a whole amount)
         x = rng.choice([0.4, 1.3, 2.7, 1.0 / 3, 4.6])
@@ -341,6 +346,11 @@ def gen(seed, profile='general', big=False):
     huge = rng.random() < P.get('huge_caps', 0.05)
     cregime = pick('cold', {'ample': 75, 'tight': 25})
     cold_cap = vsum + rng.randint(0, vsum) if cregime == 'ample' else vmax + rng.randint(0, max(1, vsum - vmax))
+    if rng.random() < P.get('frac_caps', 0.04):
+        hot_cap += 0.5          # capacities and tier rates need not be whole numbers
+        cold_cap += 0.5
+        if cold_rate > 0 and rng.random() < 0.5:
+            cold_rate = rng.choice([2.5, 0.5, 7.5])
     if huge:
         # capacities of the order of the shipped configurations (5e11): data held is a 1e-10 fraction
         hot_cap *= 10 ** 10
@@ -432,6 +442,8 @@ def gen(seed, profile='general', big=False):
                 faults['stalls'][o['name']] = sorted(rng.sample(range(0, 12), rng.randint(1, 4)))
     if rng.random() < fk.get('F4', 0):
         faults['perm'] = {'seed': rng.randint(0, 10 ** 6)}
+    if rng.random() < P.get('ontime_status', 0.06):
+        faults['ontime_status'] = True      # legal user algorithm: reports ON_TIME instead of SCHEDULED while it works
     if pairing == 'batch' and rng.random() < P.get('norelease', 0.25):
         faults['norelease'] = True      # legal user algorithm: reserves, leaves the release to the Scheduler
     if rng.random() < P.get('overrun', 0.0):
@@ -445,6 +457,10 @@ def gen(seed, profile='general', big=False):
           'cold': {'capacity': cold_cap, 'max_data_rate': cold_rate},
           'obs': obs, 'wfs': wfs, 'pairing': pairing, 'alg_params': ap, 'static': static,
           'machine_order': machine_order,
+          'cluster_header': ({'time': 'false', 'generator': 'hpconfig', 'architecture': {'cpu': {'XeonIvyBridge': nm}, 'gpu': {}},
+                              'gen_specs': {'file': 'x.json', 'seed': 20, 'range': '[(10, 10)]',
+                                            'heterogeneity': rng.choice([0, 0, 0.4, 1]), 'multiplier': 1}}
+                             if rng.random() < P.get('cluster_header', 0.15) else None),
           'faults': faults, 'monitor': monitor,
           'meta': {'profile': profile, 'seed': str(seed), 'regime': regime, 'pattern': pattern}}
     return sc
@@ -497,7 +513,7 @@ PROFILES = {
               'buffer': {'ample': 95, 'wait': 5}, 'monitor': 'real',
               'dur': {1: 25, 2: 30, 3: 25, 4: 20}, 'unit': {'seconds': 90, 'custom': 10},
               'dists': ['normal', 'normal', 'poisson', 'uniform']},
-    'units': {'real_time': 0.0, 'unit': {'custom': 55, 'minutes': 18, 'hours': 18, 'misspelt': 9}, 'hetero': 0.0, 'frac_start': 0.0, 'big_units': 0.4, 'zero_rate': 0.06,
+    'units': {'real_time': 0.0, 'frac_caps': 0.0, 'zero_ingest': 0.0, 'unit': {'custom': 55, 'minutes': 18, 'hours': 18, 'misspelt': 9}, 'hetero': 0.0, 'frac_start': 0.0, 'big_units': 0.4, 'zero_rate': 0.06,
               'frac_rate': 0.0, 'frac_speed': 0.0,
               'comp': {1: 40, 2: 30, 3: 20, 4: 10},
               'dur': {1: 40, 2: 35, 3: 25}, 'buffer': {'ample': 95, 'wait': 5},
